@@ -37,6 +37,14 @@ PROPS = {
              'cases': {'quick': 10000, 'thorough': 300000}, 'shards': {'quick': 1, 'thorough': 2}},
         ],
     },
+    'C04': {
+        'rule': 'pairs of valid elements and a tangent (strata of C02/C03), operand storage owning / Map / Map<const> over unaligned buffers; non-trivial: t != 0 and relative rotation of X,Y > 1e-3',
+        'assumptions': ASSUME_ORACLE + ['aliases are compared bit-for-bit with the canonical member on identical operands (same process, same translation unit)'],
+        'stages': [
+            {'src': 'C04.cpp', 'configs': D_GROUPS + F_GROUPS + BUNDLES,
+             'cases': {'quick': 8000, 'thorough': 300000}, 'shards': {'quick': 1, 'thorough': 2}},
+        ],
+    },
     'C06': {
         'rule': 'tangent (theta up to pi-1e-6, strata of 1.3) x two elements x second tangent; non-trivial: theta != 0 and a linear component >= 1e-3',
         'assumptions': ASSUME_ORACLE,
